@@ -370,6 +370,273 @@ for _ev in EVENTS:
 
 
 # ----------------------------------------------------------------------------
+# retained intron: reference classification, gating and the records themselves
+# ----------------------------------------------------------------------------
+class GhostTxList:
+    """a list of transcript ids that is only appended to: members as a predicate over transcript indices plus a symbolic count"""
+    def __init__(self, I, name):
+        self.name = name
+        self.mem = z3.Function(I.e.fresh_name(f'in_{name}'), I_, B_)
+        i = z3.Int('i_empty')
+        I.e.assume(z3.ForAll([i], z3.Not(self.mem(i))))
+        self.cnt = z3.IntVal(0)
+
+    def havoc(self, I):
+        self.mem = z3.Function(I.e.fresh_name(f'in_{self.name}'), I_, B_)
+        self.cnt = I.e.int(f'n_{self.name}')
+        I.e.assume(self.cnt >= 0)
+
+    def sym_method(self, I, name, a, k):
+        if name != 'append' or not (isinstance(a[0], SymObj) and a[0].cls == 'TxId16'):
+            raise Unsupported(f'{self.name}.{name}')
+        new = z3.Function(I.e.fresh_name(f'in_{self.name}'), I_, B_)
+        i = z3.Int('i_app')
+        I.e.assume(z3.ForAll([i], new(i) == z3.Or(self.mem(i), i == a[0].fields['i'])))
+        self.mem, self.cnt = new, self.cnt + 1
+        return None
+
+    def sym_truth(self, I):
+        return self.cnt > 0
+
+    def sym_view(self, I):
+        g = self
+
+        def get(t):
+            m = I.e.int(f'member_of_{g.name}')
+            I.e.assume(g.mem(m))
+            return SymObj('TxId16', i=m)
+        return FnView(self.cnt, get, tag=self.name)
+
+
+class ExonIter16:
+    def __init__(self, view):
+        self.view, self.pos = view, 0
+
+    def sym_next(self, I, rest):
+        n = self.view.length()
+        c = I.compare('<', self.pos, n)
+        if c is True or (c is not False and I.e.branch(c, 'next:has-exon')):
+            x = self.view.get(self.pos)
+            self.pos = self.pos + 1
+            return x
+        if rest:
+            return rest[0]
+        I.raise_('StopIteration')
+
+
+@register
+class RIConvert(Contract):
+    """retained intron U..D (upstream exon end, downstream exon start): a transcript is 'spliced' iff two consecutive exons end at U and
+    start at D, 'retaining' iff one exon strictly contains the intron; insertion records (intron inserted after the last exon base before
+    it, in transcript direction) are emitted for every spliced transcript iff no transcript retains it and ijc >= min_ijc; deletion records
+    (the gene-coordinate image of the intron) for every retaining transcript iff no transcript splices it and sjc >= min_sjc"""
+    path, qualname, props = RM + 'RIRecord.py', 'RIRecord.convert_to_variant_records', ('C16',)
+    declared_raises = ['ValueError']
+    models = (install_exon_identity,)
+    assumptions = ('assumed: exons of a transcript are sorted, non-empty and disjoint (GTF); get_gene_sequence returns the gene sequence in gene '
+                   'orientation; iteration axiom: a for loop over a list visits every member once',
+                   'summary: coordinate_genomic_to_gene is its proved contract (C11)')
+
+    def setup(self, I):
+        e = I.e
+        st = types.SimpleNamespace(records=[])
+        st.gn = mk_gene_tagged(I, gene_id='G')
+        st.h = mk_tx_tagged(I, gene_id='G')
+        for a in st.h.axioms:
+            e.assume(a)
+        e.assume(st.gn.start < st.gn.end)
+        st.N = e.int('n_tx')
+        e.assume(st.N >= 0)
+        st.U, st.D = e.int('upstream_exon_end'), e.int('downstream_exon_start')
+        st.ijc, st.sjc, st.min_ijc, st.min_sjc = e.int('ijc'), e.int('sjc'), e.int('min_ijc'), e.int('min_sjc')
+        st.SPL, st.RET = z3.Function('transcript_splices_the_intron', I_, B_), z3.Function('transcript_retains_the_intron', I_, B_)
+        st.G = PStr.sym(e, 'gene_seq', st.gn.end - st.gn.start)
+        zz = lambda i: i if is_z3(i) else z3.IntVal(i)
+        txids = FnView(st.N, lambda i: SymObj('TxId16', i=zz(i)), tag='transcripts')
+        st.gn.obj.fields['transcripts'] = txids
+        st.gn.obj.fields['gene_name'] = 'SYMBOL'
+        st.anno = SymObj('GenomicAnnotation', genes={'G': st.gn.obj}, transcripts=SymObj('TxTable16'), source='GENCODE', gene_id_version_mapper=None,
+                         version=None, _cached_tx_seqs=[])
+        rec = SymObj('RIRecord', gene_id='G', gene_symbol='S', chrom='chr1', retained_intron_exon_start=e.int('ri_start'),
+                     retained_intron_exon_end=e.int('ri_end'), upstream_exon_start=e.int('up_start'), upstream_exon_end=st.U,
+                     downstream_exon_start=st.D, downstream_exon_end=e.int('down_end'), ijc_sample_1=st.ijc, sjc_sample_1=st.sjc,
+                     ijc_sample_2=None, sjc_sample_2=None)
+        st.args = [rec, st.anno, SymObj('Genome16'), st.min_ijc, st.min_sjc]
+        st.spl, st.ret = None, None
+        self._cur = st
+        return st
+
+    # ---- specification pieces
+    def spliced_f(self, st):
+        h, j = st.h, z3.Int('j_spl')
+        return z3.Exists([j], z3.And(0 <= j, j + 1 < h.n, h.e[j] == st.U, h.s[j + 1] == st.D))
+
+    def contain(self, st, j):
+        h = st.h
+        return z3.And(h.s[j] < st.U, st.U < st.D, st.D < h.e[j] - 1)
+
+    def retained_f(self, st, upto=None):
+        h, j = st.h, z3.Int('j_ret')
+        return z3.Exists([j], z3.And(0 <= j, j < (h.n if upto is None else upto), self.contain(st, j)))
+
+    def intron_gene(self, st):
+        gn = st.gn
+        return (z3.If(gn.strand == 1, st.U - gn.start, gn.end - st.D), z3.If(gn.strand == 1, st.D - gn.start, gn.end - st.U))
+
+    @property
+    def models(self):
+        c = self
+
+        def inst(reg):
+            reg.protocol_('TxTable16', '__getitem__', lambda I, o, key: c._cur.h.obj)
+            reg.protocol_('Genome16', '__getitem__', lambda I, o, key: SymObj('Chrom16'))
+            reg.method_('GeneAnnotationModel', 'get_gene_sequence', lambda I, o, a, k: SymObj('GeneSeq16', seq=c._cur.G))
+            reg.iter_hooks.append(lambda I, v: ExonIter16(v) if v is c._cur.h.exon else None)
+
+            def mk_record(I, a, k):
+                st = c._cur
+                names = ['location', 'ref', 'alt', 'type', 'id', 'attrs']
+                f = dict(zip(names, a))
+                r = SymObj('VariantRecord', **f)
+                st.records.append(r)
+                return r
+            reg.ctor_('VariantRecord', mk_record)
+        return (inst,)
+
+    # ---- loop 0: transcripts of the gene
+    def havoc0(self, I, env, k):
+        st = self._cur
+        for nm in ('spliced_in_ref', 'retained_in_ref'):
+            g = env[nm]
+            if not isinstance(g, GhostTxList):
+                g = GhostTxList(I, nm)
+                env[nm] = g
+            g.havoc(I)
+        st.spl, st.ret = env['spliced_in_ref'], env['retained_in_ref']
+
+    def init0(self, I, env):
+        st = self._cur
+        env['spliced_in_ref'], env['retained_in_ref'] = GhostTxList(I, 'spliced_in_ref'), GhostTxList(I, 'retained_in_ref')
+        st.spl, st.ret = env['spliced_in_ref'], env['retained_in_ref']
+
+    def inv0(self, I, env, k):
+        st = self._cur
+        i = z3.Int('i_tx')
+        spl, ret = env['spliced_in_ref'], env['retained_in_ref']
+        if not isinstance(spl, GhostTxList):
+            return [('lists-empty-at-entry', spl == [] and ret == [])]
+        return [('spliced-list=spliced-transcripts-so-far', z3.ForAll([i], spl.mem(i) == z3.And(0 <= i, i < k, st.SPL(i)))),
+                ('retained-list=retaining-transcripts-so-far', z3.ForAll([i], ret.mem(i) == z3.And(0 <= i, i < k, st.RET(i)))),
+                ('non-empty-iff-a-member', z3.And((spl.cnt > 0) == z3.Exists([i], spl.mem(i)), (ret.cnt > 0) == z3.Exists([i], ret.mem(i)), spl.cnt >= 0, ret.cnt >= 0)),
+                # quantifier-free consequence, so that the record loops are not entered on paths without transcripts
+                ('empty-before-the-first-transcript', z3.Implies(k == 0, z3.And(spl.cnt == 0, ret.cnt == 0)))]
+
+    def head0(self, I, env, k):
+        st = self._cur
+        # definition of the two classes for the transcript of this iteration
+        I.e.assume(z3.And(st.SPL(k) == self.spliced_f(st), st.RET(k) == self.retained_f(st)))
+        st.c0 = (st.spl.cnt, st.ret.cnt)
+        st.k = k
+
+    # ---- loop 1: while exon
+    def cur_index(self, I, env):
+        st = self._cur
+        ex = env['exon']
+        it = env['it']
+        return st.h.n if ex is None else it.pos - 1
+
+    def havoc1(self, I, env, k):
+        st = self._cur
+        st.spl.havoc(I)
+        st.ret.havoc(I)
+        it = env['it']
+        c = I.e.int('cur')
+        I.e.assume(z3.And(0 <= c, c <= st.h.n))
+        if I.e.branch(c < st.h.n, 'exon left'):
+            env['exon'] = st.h.exon.get(c)
+            it.pos = c + 1
+        else:
+            env['exon'] = None
+            it.pos = st.h.n
+
+    def inv1(self, I, env, k):
+        st = self._cur
+        h = st.h
+        c = self.cur_index(I, env)
+        j, i = z3.Int('j_pair'), z3.Int('i_m')
+        kk = st.k
+        spl0, ret0 = st.c0
+        return [('cursor-in-range', z3.And(0 <= c, c <= h.n)),
+                ('not-yet-classified-as-spliced', z3.And(st.spl.cnt == spl0, z3.Not(st.spl.mem(kk)))),
+                ('no-spliced-pair-before-the-cursor', z3.ForAll([j], z3.Implies(z3.And(0 <= j, j < c, j + 1 < h.n), z3.Not(z3.And(h.e[j] == st.U, h.s[j + 1] == st.D))))),
+                ('retained-recorded-iff-a-containing-exon-was-passed', z3.And(st.ret.cnt == ret0 + z3.If(self.retained_f(st, c), 1, 0),
+                                                                             st.ret.mem(kk) == self.retained_f(st, c))),
+                ('other-transcripts-untouched', z3.ForAll([i], z3.Implies(i != kk, z3.And(st.spl.mem(i) == z3.And(0 <= i, i < kk, st.SPL(i)),
+                                                                                         st.ret.mem(i) == z3.And(0 <= i, i < kk, st.RET(i))))))]
+
+    def step0(self, I, env, k):
+        st = self._cur
+        spl0, ret0 = st.c0
+        return [('spliced-iff-consecutive-exons-end-at-U-and-start-at-D', z3.And(st.spl.cnt == spl0 + z3.If(self.spliced_f(st), 1, 0), st.spl.mem(k) == self.spliced_f(st))),
+                ('retaining-iff-an-exon-strictly-contains-the-intron', z3.And(st.ret.cnt == ret0 + z3.If(self.retained_f(st), 1, 0), st.ret.mem(k) == self.retained_f(st)))]
+
+    # ---- loops 2 / 3: the records
+    def head_rec(self, I, env, k):
+        self._cur.nrec = len(self._cur.records)
+
+    def step_rec(self, kind):
+        def step(I, env, k):
+            st = self._cur
+            new = st.records[st.nrec:]
+            items = [('exactly-one-record-per-transcript', len(new) == 1)]
+            if len(new) != 1:
+                return items
+            r = new[0]
+            tx = env['tx_id']
+            a, b = self.intron_gene(st)
+            i = z3.Int('i_any')
+            none_ret = z3.Not(z3.Exists([i], z3.And(0 <= i, i < st.N, st.RET(i))))
+            none_spl = z3.Not(z3.Exists([i], z3.And(0 <= i, i < st.N, st.SPL(i))))
+            loc, at = r.fields['location'], r.fields['attrs']
+            idp = r.fields['id']
+            okid = isinstance(idp, OpaqueStr) and len(idp.parts) == 4 and idp.parts[0] == 'RI_' and idp.parts[2] == '-'
+            items.append(('id=RI_<gene interval of the intron>', z3.And(idp.parts[1] == a, idp.parts[3] == b) if okid else False))
+            items.append(('record-on-the-gene-for-this-transcript', loc.fields['seqname'] == 'G' and at.get('TRANSCRIPT_ID') is tx))
+            # the interval [a, b) used below is exactly the gene-coordinate image of the genomic intron [U, D)
+            x = z3.Int('x_intron')
+            items.append(('interval-used=gene-coordinate-image-of-the-intron',
+                          z3.And(b - a == st.D - st.U, z3.ForAll([x], z3.Implies(z3.And(st.U <= x, x < st.D), z3.And(a <= g2gene_val(st.gn, x), g2gene_val(st.gn, x) < b))),
+                                 a - 1 == g2gene_val(st.gn, z3.If(st.gn.strand == 1, st.U - 1, st.D)))))
+            if kind == 'ins':
+                items.append(('insertion-only-if-no-transcript-retains-and-enough-inclusion-reads', z3.And(none_ret, st.ijc >= st.min_ijc, st.SPL(tx.fields['i']))))
+                items.append(('inserted-after-the-last-base-before-the-intron-in-transcript-direction',
+                              z3.And(loc.fields['start'] == a - 1, loc.fields['end'] == a, r.fields['type'] == 'Insertion' and r.fields['alt'] == '<INS>')))
+                items.append(('donor=gene-interval-of-the-intron', z3.And(at.get('DONOR_START') == a, at.get('DONOR_END') == b, at.get('DONOR_GENE_ID') == 'G' and at.get('COORDINATE') == 'gene')))
+                ref = r.fields['ref']
+                items.append(('ref=gene-base-at-the-insertion-point', z3.Implies(a - 1 >= 0, ref.get(0) == st.G.get(a - 1)) if isinstance(ref, PStr) else False))
+            else:
+                items.append(('deletion-only-if-no-transcript-splices-and-enough-skipping-reads', z3.And(none_spl, st.sjc >= st.min_sjc, st.RET(tx.fields['i']))))
+                items.append(('deleted=gene-interval-of-the-intron', z3.And(loc.fields['start'] == a, loc.fields['end'] == b, at.get('START') == a, at.get('END') == b,
+                                                                           r.fields['type'] == 'Deletion' and r.fields['alt'] == '<DEL>')))
+                ref = r.fields['ref']
+                items.append(('ref=first-deleted-gene-base', ref.get(0) == st.G.get(a) if isinstance(ref, PStr) else False))
+            return items
+        return step
+
+    @property
+    def loops(self):
+        T = lambda I, env, k: []
+        return {0: LoopSpec(inv=self.inv0, havoc=self.havoc0, on_init=self.init0, on_head=self.head0, step=self.step0),
+                1: LoopSpec(inv=self.inv1, havoc=self.havoc1),
+                2: LoopSpec(inv=T, on_head=self.head_rec, step=self.step_rec('ins')),
+                3: LoopSpec(inv=T, on_head=self.head_rec, step=self.step_rec('del'))}
+
+    def post_return(self, I, st, ret):
+        # reached only on the exit paths of the record loops: which blocks ran is decided by the two gates
+        pass
+
+
+# ----------------------------------------------------------------------------
 # the parseRMATS command: thresholds reach the record classes under the right names; every record is kept
 # ----------------------------------------------------------------------------
 PRC = 'moPepGen/cli/parse_rmats.py'
